@@ -30,6 +30,16 @@
  *     bytes checked behind each call), im = input bytes modified by a
  *     not-in-place call, fd = first offset where lib and ref differ (-1 if
  *     none; information for the witness only).
+ *  F <flags> <keyhex> <nonce> <startblock> <data> <parts>
+ *        -> R <lib> <ref> <twice|~> ow=<n> im=<n> fd=<n> ~
+ *     "Far-offset" stream: like a one-segment S line (flags i|a, p, x, t; data
+ *     in hex), but directly after crypto_aesctr_init / _init2 the stream is
+ *     moved to block <startblock> with the verification hook
+ *     crypto_aesctr_verif_seek (compiled into crypto/crypto_aesctr.c under
+ *     LIBCPERCIVA_VERIF: state as after <startblock> whole blocks).  <ref> is
+ *     the model at the ABSOLUTE position: byte j of the data is XORed with
+ *     byte 16*<startblock>+j of the keystream.  Flag t: a second stream
+ *     object, moved to the same block, encrypts the output again in one call.
  */
 #include "vh.h"
 
@@ -38,6 +48,9 @@
 #include "crypto_aes.h"
 #include "crypto_aesctr.h"
 #include "refaes.h"
+
+/* Verification hook at the end of crypto/crypto_aesctr.c (LIBCPERCIVA_VERIF). */
+void crypto_aesctr_verif_seek(struct crypto_aesctr *, uint64_t);
 
 #define FULLMAX 4096
 #define SENT 0xA5
@@ -182,7 +195,8 @@ key_done(struct keyinfo * k)
 static void
 seg_mem(struct crypto_aesctr ** streamp, const char * flags, int first,
     struct keyinfo * newkey, struct keyinfo * eff, uint64_t nonce,
-    const uint8_t * data, size_t L, const char * partstr)
+    const uint8_t * data, size_t L, const char * partstr, int far,
+    uint64_t startblk)
 {
 	int f_buf = strchr(flags, 'b') != NULL;
 	int f_inpl = strchr(flags, 'p') != NULL;
@@ -224,7 +238,11 @@ seg_mem(struct crypto_aesctr ** streamp, const char * flags, int first,
 		} else
 			crypto_aesctr_init2(*streamp,
 			    newkey ? newkey->lib : NULL, nonce);
-	}
+		/* Far-offset stream: as if startblk whole blocks were done. */
+		if (far)
+			crypto_aesctr_verif_seek(*streamp, startblk);
+	} else if (far)
+		vh_die("flag b cannot be used with a start block");
 
 	if (f_buf) {
 		/* One crypto_aesctr_buf call; the partition is not used. */
@@ -292,7 +310,9 @@ seg_mem(struct crypto_aesctr ** streamp, const char * flags, int first,
 
 	/* Reference. */
 	refb = vh_exact(NULL, L, &fref);
-	refaes_ctr(eff->rk, eff->nr, nonce, 0, data, refb, L);
+	if (far && startblk > (UINT64_MAX - L) / 16)
+		vh_die("start block beyond the 64-bit byte position");
+	refaes_ctr(eff->rk, eff->nr, nonce, 16 * startblk, data, refb, L);
 	for (j = 0; j < L; j++) {
 		if (refb[j] != outb[j]) {
 			fd = (int64_t)j;
@@ -307,7 +327,16 @@ seg_mem(struct crypto_aesctr ** streamp, const char * flags, int first,
 	if (f_twice) {
 		twb = vh_exact(NULL, L, &ftw);
 		memset(twb, SENT, L);
-		crypto_aesctr_buf(eff->lib, nonce, outb, twb, L);
+		if (far) {
+			struct crypto_aesctr * s2;
+
+			if ((s2 = crypto_aesctr_init(eff->lib, nonce)) == NULL)
+				vh_die("crypto_aesctr_init failed");
+			crypto_aesctr_verif_seek(s2, startblk);
+			crypto_aesctr_stream(s2, outb, twb, L);
+			crypto_aesctr_free(s2);
+		} else
+			crypto_aesctr_buf(eff->lib, nonce, outb, twb, L);
 		put_result(twb, L);
 		free(ftw);
 	} else
@@ -534,7 +563,7 @@ main(void)
 					uint8_t * d = vh_unhex(data, &dlen);
 
 					seg_mem(&stream, flags, s == 0, nk, eff,
-					    nonce, d, dlen, parts);
+					    nonce, d, dlen, parts, 0, 0);
 					vh_free(d);
 				}
 			}
@@ -542,6 +571,29 @@ main(void)
 			crypto_aesctr_free(stream);
 			key_done(&k[0]);
 			key_done(&k[1]);
+		} else if (op[0] == 'F') {
+			const char * flags = vh_tok(&L, 1);
+			struct keyinfo k;
+			struct crypto_aesctr * stream = NULL;
+			uint64_t nonce, startblk;
+			size_t dlen;
+			uint8_t * d;
+
+			if (L.ntok != 7)
+				vh_die("F: %zu tokens", L.ntok);
+			key_setup(&k, vh_tok(&L, 2));
+			if (!k.present)
+				vh_die("F needs a key");
+			nonce = vh_tok_u(&L, 3);
+			startblk = vh_tok_u(&L, 4);
+			d = vh_unhex(vh_tok(&L, 5), &dlen);
+			printf("R ");
+			seg_mem(&stream, flags, 1, &k, &k, nonce, d, dlen,
+			    vh_tok(&L, 6), 1, startblk);
+			fputc('\n', stdout);
+			vh_free(d);
+			crypto_aesctr_free(stream);
+			key_done(&k);
 		} else
 			vh_die("bad op %s", op);
 	}
